@@ -718,13 +718,36 @@ func ruleSplitFunc(p *Prog, l *Ledger, tier string) {
 					l.Undecide(rule, FnName(fn), l.Key(rule, FnName(fn), "splitfunc", "dynamic"), p.Pos(c.Pos()), "split function value cannot be resolved statically")
 					continue
 				}
-				if len(sf.Params) != 2 {
+				// a method value (&splitter{}).split: the wrapper go/ssa builds calls the method with the bound receiver
+				off := 0
+				if sf.Synthetic != "" {
+					var target *ssa.Function
+					for _, wb := range sf.Blocks {
+						for _, wi := range wb.Instrs {
+							if wc, ok := wi.(*ssa.Call); ok && wc.Call.StaticCallee() != nil {
+								target = wc.Call.StaticCallee()
+							}
+						}
+					}
+					if target == nil || target.Blocks == nil || len(target.Params) != 3 {
+						l.Undecide(rule, FnName(fn), l.Key(rule, FnName(fn), "splitfunc", "bound"), p.Pos(c.Pos()), "split function is a bound method that could not be resolved")
+						continue
+					}
+					sf, off = target, 1
+				}
+				if len(sf.Params) != 2+off {
 					continue
 				}
-				if _, ok := sf.Params[1].Type().Underlying().(*types.Basic); !ok {
+				if _, ok := sf.Params[1+off].Type().Underlying().(*types.Basic); !ok {
 					continue
 				}
-				a := &splitAnalysis{p: p, fn: sf, data: sf.Params[0], atEOF: sf.Params[1]}
+				// the path analysis looks at one call in isolation: a split function that remembers something from one
+				// call to the next (a captured variable, a field of its receiver) is outside what it decides
+				if where := splitKeepsState(sf); where != nil {
+					l.Undecide(rule, FnName(sf), l.Key(rule, FnName(sf), "splitfunc", "stateful"), p.Pos(where.Pos()), FnName(sf)+" keeps state between calls (store at "+p.Pos(where.Pos())+"): whether every token it delivers and every request for more data is right then depends on the sequence of calls bufio.Scanner makes, which the rule does not model")
+					continue
+				}
+				a := &splitAnalysis{p: p, fn: sf, data: sf.Params[off], atEOF: sf.Params[1+off]}
 				a.run(l, rule)
 			}
 		}
@@ -801,4 +824,34 @@ func derivesFromLoadOf(v ssa.Value, addr ssa.Value, depth int) bool {
 		}
 	}
 	return false
+}
+
+// splitKeepsState: a store of an integer (an offset into the data) into a captured variable or into memory reached from
+// the receiver.
+func splitKeepsState(sf *ssa.Function) ssa.Instruction {
+	for _, b := range sf.Blocks {
+		for _, ins := range b.Instrs {
+			st, ok := ins.(*ssa.Store)
+			if !ok {
+				continue
+			}
+			if !isIntegerT(st.Val.Type()) {
+				continue // a flag (the BOM has been looked for) is handled by the path analysis; an offset into the data is not
+			}
+			switch ad := st.Addr.(type) {
+			case *ssa.FreeVar:
+				return st
+			case *ssa.FieldAddr:
+				if _, isPar := ad.X.(*ssa.Parameter); isPar {
+					return st
+				}
+				if u, ok := ad.X.(*ssa.UnOp); ok {
+					if _, isFV := u.X.(*ssa.FreeVar); isFV {
+						return st
+					}
+				}
+			}
+		}
+	}
+	return nil
 }
